@@ -38,6 +38,7 @@ class Checker:
         self.w = world
         self.U = list(case.get("U", []))
         self.nt = set()
+        self.last_q = {}
 
     def check_sketch(self, i):
         w = self.w
@@ -45,6 +46,13 @@ class Checker:
         true = w.true[i]
         cfg = w.cfg
         allkeys = sorted(set(self.U) | set(true))
+        # start each sweep with the key this sketch object was asked for last (a lookup memo that
+        # survives a state change would answer it from the cache), then rotate the rest
+        last = self.last_q.get(i)
+        if last in allkeys:
+            j = allkeys.index(last)
+            allkeys = allkeys[j:] + allkeys[:j]
+        self.last_q[i] = allkeys[-1]
         cells = {k: CELLMAP.cells(cfg, k) for k in allkeys}
         depth = cfg["depth"]
         W = [defaultdict(int) for _ in range(depth)]
